@@ -22,7 +22,9 @@ var recRelay = ev.New("C11", "relay-scenarios",
 		"with scripted delays, paced and burst traffic, client address changes, garbage/unauthenticated/replayed datagrams (fenced and interleaved), "+
 		"replies from non-target sources. Oracle: tagged payloads (session, seq, intended destination, checksum) judged at every harness-owned socket. "+
 		"Non-trivial: >=2 concurrent sessions reaching different target sockets with >=1 destination addressed by name; distinct key = configuration class").
-	Require("name-target", "ss2022-address-change", "fenced-garbage", "topology:peer", "topology:direct", "batch:no", "batch:sendmmsg")
+	Require("name-target", "ss2022-address-change", "fenced-garbage", "topology:peer", "topology:direct", "batch:no", "batch:sendmmsg",
+		"tour:name-to-other-name", "tour:name-to-failing-name:servfail", "tour:name-to-failing-name:nxdomain", "tour:failing-name-now-resolvable",
+		"tour:name-to-ip", "tour:ip-to-name", "tour:same-name-other-port", "drop-first:sendmmsg", "tunnel-target-only")
 
 func workDir(t interface{ TempDir() string }) string {
 	if d := os.Getenv("VERIF_WORK"); d != "" {
@@ -119,4 +121,65 @@ func TestReplayC11(t *testing.T) {
 		t.Skip("not a C11 relay plan")
 	}
 	checkPlan(t, &p, t.TempDir())
+}
+
+// fixedPlans are regression plans that do not depend on the generator:
+//   - a single session walking through several targets with a failing lookup in between (direct client:
+//     the packer's resolution cache must not send "B" to A's address after B failed to resolve);
+//   - a reply that the relay has to drop immediately followed by the genuine echo, many rounds, on the
+//     sendmmsg downlink (the dropped datagram and the genuine one tend to share a recvmmsg batch: the
+//     send vector must be compacted correctly) and, for comparison, on the generic one.
+func fixedPlans() []*plan {
+	dests := func() []planDest {
+		return []planDest{{Sock: 0}, {Sock: 1}, {Sock: 2}, {Sock: 0, Name: true}, {Sock: 1, Name: true, DelayMs: 3}}
+	}
+	tourPlan := func(seed uint64, server, batch, client, topo, fail string) *plan {
+		d := append(dests(), planDest{Sock: 1, Name: true, Flaky: true, Fail: fail}, planDest{Sock: 0, Name: true, AltPort: true, SameAs: 3})
+		return &plan{Seed: seed, ServerProto: server, BatchMode: batch, ClientProto: client, Topology: topo, NSock: 3, Dests: d,
+			Sessions: []planSession{
+				{A: []planOp{{Kind: "paced", Dest: 3, Alt: 3, N: 1}, {Kind: "tour", Fill: 40, Tour: &tourStops{A: 3, B: 4, F: 5, IP: 2, AP: 6}}},
+					B: []planOp{{Kind: "tour", Fill: 300, Tour: &tourStops{A: 4, B: 3, F: 5, IP: 0, AP: 6}}}},
+				{A: []planOp{{Kind: "paced", Dest: 4, Alt: 1, N: 3}}, B: []planOp{{Kind: "paced", Dest: 1, Alt: 4, N: 3}}},
+			}}
+	}
+	dropPlan := func(seed uint64, server, batch string, mode int, targetOnly bool) *plan {
+		p := &plan{Seed: seed, ServerProto: server, BatchMode: batch, ClientProto: "direct", Topology: "direct", NSock: 3, Dests: dests(),
+			DropFirst: mode, TargetOnly: targetOnly, TunnelDest: 1,
+			Sessions: []planSession{
+				{A: []planOp{{Kind: "paced", Dest: 0, Alt: 1, N: 60, Fill: 20}}, B: []planOp{{Kind: "paced", Dest: 1, Alt: 0, N: 20, Fill: 700}}},
+				{A: []planOp{{Kind: "paced", Dest: 2, Alt: 2, N: 60, Fill: 0}}, B: []planOp{{Kind: "paced", Dest: 2, Alt: 0, N: 20, Fill: 100}}},
+			}}
+		if server == "direct" {
+			for i := range p.Sessions {
+				for _, ops := range [][]planOp{p.Sessions[i].A, p.Sessions[i].B} {
+					for j := range ops {
+						ops[j].Dest, ops[j].Alt = 1, 1
+					}
+				}
+			}
+		}
+		return p
+	}
+	ss := "2022-blake3-aes-128-gcm"
+	return []*plan{
+		tourPlan(1, "socks5", "no", "direct", "direct", "servfail"),
+		tourPlan(2, "none", "sendmmsg", "direct", "direct", "nxdomain"),
+		tourPlan(3, ss, "sendmmsg", "none", "chain", "servfail"),
+		dropPlan(11, "socks5", "sendmmsg", 1, false),
+		dropPlan(12, ss, "sendmmsg", 1, false),
+		dropPlan(13, "none", "sendmmsg", 2, false),
+		dropPlan(14, "direct", "sendmmsg", 3, true),
+		dropPlan(15, "socks5", "no", 1, false),
+	}
+}
+
+func TestFixedRegressions(t *testing.T) {
+	dir := workDir(t)
+	for i, p := range fixedPlans() {
+		before := t.Failed()
+		checkPlan(t, p, dir)
+		if !before && t.Failed() {
+			t.Fatalf("fixed plan %d failed", i)
+		}
+	}
 }
